@@ -3,7 +3,7 @@ import fcntl, hashlib, json, os, shutil, subprocess, sys, time
 
 VERIF = os.path.dirname(os.path.dirname(os.path.abspath(__file__)))
 REPO = os.environ.get("VERIF_REPO", "/repo")
-WORK = os.path.join(VERIF, ".work")
+WORK = os.environ.get("VERIF_WORK") or os.path.join(VERIF, ".work")   # VERIF_REPO / VERIF_WORK: development only (a second tree analysed in parallel)
 DRIVER_DIR = os.path.join(VERIF, "mirfacts")
 DRIVER_TARGET = os.path.join(WORK, "mirfacts-target")
 DRIVER = os.path.join(DRIVER_TARGET, "release", "mirfacts")
